@@ -353,7 +353,7 @@ func (vc *VC) execRange(st *State, x *ast.RangeStmt, label string) []*State {
 		}
 	case *types.Basic:
 		if isString(rng.T) {
-			ln := "(str.len " + rng.S + ")"
+			ln := "(s.len " + rng.S + ")"
 			wName := fmt.Sprintf("$w%d", n)
 			initGhost = func(s *State) { s.ghost[idxName] = intTerm("0") }
 			havocGhost = func(h *State) {
@@ -367,7 +367,7 @@ func (vc *VC) execRange(st *State, x *ast.RangeStmt, label string) []*State {
 				k := s.ghost[idxName]
 				r := vc.fresh("rune", types.Typ[types.Rune])
 				w := vc.freshSort("w", "Int")
-				b := "(str.at " + rng.S + " " + k.S + ")"
+				b := "(s.at " + rng.S + " " + k.S + ")"
 				// assumed UTF-8 decoding contract
 				s.assume(fmt.Sprintf("(ite (< %s 128) (and (= %s %s) (= %s 1)) (and (>= %s 128) (<= %s 1114111) (<= 1 %s) (<= %s 4) (<= (+ %s %s) %s)))",
 					b, r.S, b, w.S, r.S, r.S, w.S, w.S, k.S, w.S, ln))
